@@ -9,26 +9,38 @@ _RULE = ('history = sequence of events from {send, heartbeat, in-app, batch2, in
          'distinct = new canonical state; every history of length <= depth whose prefix reached a new state is executed')
 
 
+_SR = ('Part send-vs-receive (schedule search, harness c25_senders): sender threads (send / send_batch) and one thread that hands in-sequence Heartbeats to Session::process as the reader thread does, '
+       'on one real Session in the threaded model over a memory or file store, under the cooperative scheduler (scheduling points at every lock operation, the socket write and, for the file store, every '
+       'lseek/read/write); every schedule with at most b preemptions; at the end the control record must equal (next outbound, next inbound), the store must return the transmitted bytes under every number, '
+       'and a fresh FilePersister opened on the same files must say the same.')
+_SRA = ['part send-vs-receive: cooperative scheduler, exactly one thread runs, code between two scheduling points is atomic (see C25)']
+
+
 def _parts(prop, dq, dt):
+    sr = dict(C16=(['pm=t', 'ops=ss,rr', 'pk=m', 'bound=3'], ['pm=t', 'ops=sb,rrr', 'pk=m', 'bound=4']),
+              C17=(['pm=t', 'ops=sb,rr', 'pk=f', 'bound=2'], ['pm=t', 'ops=sb,bs,rr', 'pk=f', 'bound=3']))[prop]
     return [dict(name='bfs', harness='session_num', variant='san',
                  quick=dict(args=['prop=' + prop, 'depth=%d' % dq], deadline=100),
-                 thorough=dict(args=['prop=' + prop, 'depth=%d' % dt], deadline=800))]
+                 thorough=dict(args=['prop=' + prop, 'depth=%d' % dt], deadline=800)),
+            dict(name='send-vs-receive', harness='c25_senders', variant='schedp', inproc=True,
+                 quick=dict(args=sr[0], deadline=60), thorough=dict(args=sr[1], deadline=500))]
 
 
 check('C16', title='Outbound sequence numbers are consecutive and persisted',
       level='model_checking', engine='sim+bfs',
-      technique='explicit-state breadth-first search over event histories replayed on the real Session (state = history, deduplicated by canonical key), reference numbering model checked at every step',
+      technique='explicit-state breadth-first search over event histories replayed on the real Session (state = history, deduplicated by canonical key), reference numbering model checked at every step; plus preemption-bounded exhaustive schedule search of sending against inbound processing',
       design_ref='DESIGN.md §3 C16, §2.1, §2.2',
       text='Every history up to the depth bound over the event menu is replayed on a fresh real Session+Connection+persister over a scripted socket; after each event the '
            'wire output is compared with a reference counter (each new message carries previous+1, first = configured/recovered start, no number reused across restarts) and '
-           'the persisted control record must equal the session\'s next send / next expected receive numbers.',
-      level_note='Bounded by history depth and the event menu; a Logout sent with the no-increment flag (session terminating) is outside the menu.',
-      rule=_RULE, assumptions=_ASSUME, parts=_parts('C16', 5, 7))
+           'the persisted control record must equal the session\'s next send / next expected receive numbers. ' + _SR,
+      level_note='Bounded by history depth and the event menu; a Logout sent with the no-increment flag (session terminating) is outside the menu. Schedule search: 2 sender steps + 2 inbound steps at preemption bound 3 (quick).',
+      rule=_RULE + '; send-vs-receive: execution = one complete schedule', assumptions=_ASSUME + _SRA, parts=_parts('C16', 5, 7))
 
 check('C17', title='Sent application messages are stored exactly as transmitted',
       level='model_checking', engine='sim+bfs',
-      technique='explicit-state breadth-first search over event histories replayed on the real Session; store compared with the bytes seen on the scripted socket after every event',
+      technique='explicit-state breadth-first search over event histories replayed on the real Session; store compared with the bytes seen on the scripted socket after every event; plus preemption-bounded exhaustive schedule search of sending against inbound processing over the file store',
       design_ref='DESIGN.md §3 C17',
       text='Same search as C16; after every event, for every sequence number up to the latest + 3, the persister returns exactly the bytes of the application message '
-           'that went on the wire under that number (batches are split by BodyLength), and returns nothing for numbers used by administrative messages or not used at all.',
-      level_note='As C16.', rule=_RULE, assumptions=_ASSUME, parts=_parts('C17', 5, 7))
+           'that went on the wire under that number (batches are split by BodyLength), and returns nothing for numbers used by administrative messages or not used at all. ' + _SR,
+      level_note='As C16; schedule search over the file store with its system calls as scheduling points, preemption bound 2 (quick).', rule=_RULE + '; send-vs-receive: execution = one complete schedule',
+      assumptions=_ASSUME + _SRA, parts=_parts('C17', 5, 7))
